@@ -144,9 +144,7 @@ impl PyOpeningHours {
         }
 
         let locale = match (timezone, coords, auto_timezone) {
-            (Some(tz), None, _) | (Some(tz), _, false) => {
-                PyLocation::Aware(TzLocation::new(tz.into()))
-            }
+            (Some(tz), None, _) => PyLocation::Aware(TzLocation::new(tz.into())),
             (Some(tz), Some(coords), _) => {
                 PyLocation::Aware(TzLocation::new(tz.into()).with_coords(coords))
             }
